@@ -49,10 +49,20 @@ def check_record(args):
         fac = math.sqrt((pw or m.power) / m.power)
         k = 2 * math.pi / lam
         kinds = [p['kind'] for p in rec['pulses']]
-        for _ in range(2):
-            r = np.array([rnd.uniform(-3, 7), rnd.uniform(-3, 7), rnd.uniform(0.5, 8)]) * unit
-            m.compute_near_field(tuple(r), (1, 1, 1), (1, 1, 1), **({'pwr': pw} if pw else {}))
-            e, h = np.array(m.e_field[0]), np.array(m.h_field[0])
+        # two observation points computed in ONE call (a grid of two points along a seeded axis): per-point state must
+        # not leak from one point into the next
+        r0 = np.array([rnd.uniform(-3, 7), rnd.uniform(-3, 7), rnd.uniform(0.5, 8)]) * unit
+        axis = rnd.randrange(3)
+        inc = [0.0, 0.0, 0.0]
+        inc[axis] = rnd.choice([1.7, 2.9]) * unit
+        nvec = [1, 1, 1]
+        nvec[axis] = 2
+        m.compute_near_field(tuple(r0), tuple(inc), tuple(nvec), **({'pwr': pw} if pw else {}))
+        coords = np.array(m.near_field_coord).T
+        grid = [(np.array(coords[j], float), np.array(m.e_field[j]), np.array(m.h_field[j])) for j in range(2)]
+        if not np.allclose(coords[1] - coords[0], inc, rtol=1e-9, atol=1e-12):
+            out['mism'].append(dict(what='near-field-grid-points'))
+        for r, e, h in grid:
             E, H = geo.surrogate_fields(I, k, m.m, r)
             E, H = E * fac, H * fac
             out['n'] += 2
